@@ -336,9 +336,9 @@ class Cgen:
                     lo, hi = '-0x1p%d' % (n - 1), '0x1p%d' % (n - 1)
                     chk = 'VF_CONV_CHECK((%s) > (%s - 1.0) && (%s) < %s, "float->int%d conversion in range");' % (A, lo, A, hi, n) if n < 53 else \
                           'VF_CONV_CHECK((%s) >= %s && (%s) < %s, "float->int%d conversion in range");' % (A, lo, A, hi, n)
-                    return '%s %s = (%s)(%s)%s; VF_CONV_REC((%s)%s);' % (chk, D, ct, s.sctype(I.to), A, s.sctype(I.to), D)
+                    return '%s %s = (%s)VF_FPTOSI%d(%s); VF_CONV_REC((%s)%s);' % (chk, D, ct, (32 if n <= 32 else 64), A, s.sctype(I.to), D)
                 chk = 'VF_CONV_CHECK((%s) > -1.0 && (%s) < 0x1p%d, "float->uint%d conversion in range");' % (A, A, n, n)
-                return '%s %s = (%s)%s; VF_CONV_REC(%s);' % (chk, D, ct, A, D)
+                return '%s %s = (%s)VF_FPTOUI%d(%s); VF_CONV_REC(%s);' % (chk, D, ct, (32 if n <= 32 else 64), A, D)
             if op in ('fpext', 'fptrunc'): return '%s = (%s)%s;' % (D, ct, A)
             if op == 'bitcast':
                 if isinstance(r1, FltT) and isinstance(r2, IntT): return '%s = %s(%s);' % (D, 'vf_d2bits' if r1.k == 'double' else 'vf_f2bits', A)
